@@ -26,7 +26,20 @@ type NetAction struct {
 	Location string            `json:"location,omitempty"` // redirect target
 	Headers  map[string]string `json:"headers,omitempty"`  // response headers
 	Delay    time.Duration     `json:"delay,omitempty"`    // simulated latency (advances the clock)
+	BodyCut  bool              `json:"body_cut,omitempty"` // status: status line and headers arrive, the body breaks off short of its Content-Length
 }
+
+// cutBody: a few bytes, then the connection is gone.
+type cutBody struct{ sent bool }
+
+func (c *cutBody) Read(p []byte) (int, error) {
+	if !c.sent && len(p) >= 7 {
+		c.sent = true
+		return copy(p, "partial"), nil
+	}
+	return 0, io.ErrUnexpectedEOF
+}
+func (c *cutBody) Close() error { return nil }
 
 // NetRequest is one request that reached the simulated network.
 type NetRequest struct {
@@ -239,6 +252,12 @@ func (n *Net) RoundTrip(req *http.Request) (*http.Response, error) {
 		resp = mkResp(req, act.Status, map[string]string{"Location": act.Location})
 	default:
 		resp = mkResp(req, act.Status, act.Headers)
+		if act.BodyCut {
+			n.mu.Lock()
+			n.Counts["net.body_cut"]++
+			n.mu.Unlock()
+			resp.Body, resp.ContentLength = &cutBody{}, 64
+		}
 	}
 	if n.Park != nil {
 		n.Park("net.response")
